@@ -1149,11 +1149,27 @@ Qed.
    theorems above speak about                                              *)
 From Verif Require Import C15.Call.
 
+Lemma malformed_false_rejected (cvs : list (list R)) i o : malformed cvs i o = false -> rejected cvs i o = None.
+Proof. unfold malformed. destruct (rejected cvs i o); [discriminate | reflexivity]. Qed.
+
+(* the regenerated per_axis dispatch: index-based exactly when no axis is linear *)
+Lemma index_based_no_linear (ss : list scheme) : gen_peraxis_index_based ss = negb (has_linear ss).
+Proof.
+  unfold gen_peraxis_index_based, has_linear.
+  induction ss as [|s r IH]; [reflexivity|]. cbn [forallb existsb]. destruct s; cbn [andb orb negb].
+  - exact IH.
+  - reflexivity.
+Qed.
+
+Lemma linear_scheme_is_linear : gen_linear_scheme = SLinear.
+Proof. reflexivity. Qed.
+
 Lemma interp_call_float_ok k ss (cvs : list (list R)) flat i :
   malformed cvs i None = false -> degenerate (schemes_of k ss cvs) cvs = false ->
   interp_call current k ss cvs DFloat flat i None = Ok (run current k ss cvs flat i).
 Proof.
-  intros Hm Hd. unfold interp_call. rewrite Hm. cbn [mesh1_raises current andb]. destruct k; try rewrite Hd; reflexivity.
+  intros Hm Hd. unfold interp_call. rewrite (malformed_false_rejected _ _ _ Hm).
+  cbn [mesh1_raises current andb]. destruct k; try rewrite Hd; reflexivity.
 Qed.
 
 (* per_axis_interpolator with all-'nearest' schemes IS the nearest_interpolator call, for every value
@@ -1162,14 +1178,14 @@ Lemma peraxis_all_nearest_call k_ss (cvs : list (list R)) dt flat i o :
   has_linear k_ss = false ->
   interp_call current KPerAxis k_ss cvs dt flat i o = interp_call current KNearest k_ss cvs dt flat i o.
 Proof.
-  intros Hl. unfold interp_call. destruct (malformed cvs i o); [reflexivity|].
+  intros Hl. unfold interp_call. destruct (rejected cvs i o) as [[|]|]; try reflexivity.
   cbn [mesh1_raises current andb int_raises orb schemes_of].
   assert (Hd : degenerate k_ss cvs = false).
   { unfold degenerate. clear -Hl. revert cvs. induction k_ss as [|s r IH]; intros [|c cvs]; try reflexivity.
     cbn [combine existsb fst snd]. cbn [has_linear existsb] in Hl. apply orb_false_elim in Hl as [Hs Hr].
     destruct s; [|discriminate]. cbn [orb]. apply IH. exact Hr. }
   assert (Hrun : run current KPerAxis k_ss cvs flat i = run current KNearest k_ss cvs flat i).
-  { unfold run. cbn [int_raises current negb andb]. rewrite Hl. reflexivity. }
+  { unfold run. cbn [int_raises current negb andb]. rewrite index_based_no_linear, Hl. reflexivity. }
   destruct dt; rewrite ?Hl, ?Hd, Hrun; reflexivity.
 Qed.
 
@@ -1193,9 +1209,10 @@ Lemma mesh_call_equals_points (l : list (scheme * list R * list R)) (flat : list
 Proof.
   intros ss cvs mesh Hl Hd Hm.
   assert (Hmm : malformed cvs (IMesh mesh) None = false).
-  { unfold malformed, cvs, mesh. rewrite !map_length, Nat.eqb_refl. reflexivity. }
-  unfold interp_call. rewrite Hm, Hmm. cbn [mesh1_raises current andb schemes_of]. rewrite Hd.
-  unfold run. cbn [int_raises current negb andb schemes_of]. rewrite Hl. cbn [negb].
+  { unfold malformed, rejected, cvs, mesh. rewrite !map_length, Nat.eqb_refl. reflexivity. }
+  unfold interp_call. rewrite (malformed_false_rejected _ _ _ Hm), (malformed_false_rejected _ _ _ Hmm).
+  cbn [mesh1_raises current andb schemes_of]. rewrite Hd.
+  unfold run. cbn [int_raises current negb andb schemes_of]. rewrite index_based_no_linear, Hl. cbn [negb].
   unfold ss, cvs, mesh. rewrite peraxis_mesh_pointwise. reflexivity.
 Qed.
 
@@ -1207,8 +1224,9 @@ Lemma nearest_mesh_call_equals_points (l : list (scheme * list R * list R)) dt (
 Proof.
   intros cvs mesh Hm.
   assert (Hmm : malformed cvs (IMesh mesh) None = false).
-  { unfold malformed, cvs, mesh. rewrite !map_length, Nat.eqb_refl. reflexivity. }
-  unfold interp_call. rewrite Hm, Hmm. cbn [mesh1_raises current andb].
+  { unfold malformed, rejected, cvs, mesh. rewrite !map_length, Nat.eqb_refl. reflexivity. }
+  unfold interp_call. rewrite (malformed_false_rejected _ _ _ Hm), (malformed_false_rejected _ _ _ Hmm).
+  cbn [mesh1_raises current andb].
   unfold run. unfold cvs, mesh. rewrite nearest_mesh_pointwise. reflexivity.
 Qed.
 
